@@ -156,3 +156,31 @@ Proof.
   rewrite VX, (get_idx_offset_dot _ _ _ rho sg EG), VS.
   eapply flat_index_dot; eauto.
 Qed.
+
+From Coq Require Import String.
+
+(** hypotheses satisfiable: x[i, (i - 3) % 8] of x : R[n, 8] with n = 3, i = 2 *)
+Example access_tensor_example :
+  let rho := fun x : positive => if Pos.eqb x 1 then 3 else 2 in
+  let sg := fun (_ : positive) (_ : nat) => 0 in
+  let shape := [CRead 1 true; CConst 8] in
+  let idx := [CRead 2 true; CBin CMod (CBin CSub (CRead 2 true) (CConst 3) false) (CConst 8) true] in
+  Forall (fun e => wf_cir e = true /\ flags_sound rho sg e) shape /\
+  Forall (fun e => wf_cir e = true /\ flags_sound rho sg e) idx /\
+  in_range (map (ceval rho sg) idx) (map (ceval rho sg) shape) /\
+  option_map show (access_offset (TyTensor shape) idx) = Some "v2 * 8 + exo_floor_mod(v2 - 3, 8)"%string /\
+  option_map (xeval rho sg) (access_offset (TyTensor shape) idx) = Some 23.
+Proof.
+  cbv zeta. repeat split; try reflexivity;
+    try (repeat constructor; cbn; intros; try discriminate; lia); cbn; lia.
+Qed.
+
+(** ... and through a window argument with strides (6, 2) and offset 1: w[i, 1] *)
+Example access_window_example :
+  let rho := fun _ : positive => 2 in
+  let sg := fun (_ : positive) (d : nat) => match d with O => 6 | _ => 2 end in
+  let idx := [CRead 2 true; CConst 1] in
+  Sem.flat_index [(4, 6); (3, 2)] (map (ceval rho sg) idx) 1 = Sem.Ok 15 /\
+  option_map show (access_offset (TyWindow 5 2 []) idx) = Some "v2 * v5.strides[0] + v5.strides[1]"%string /\
+  option_map (xeval rho sg) (access_offset (TyWindow 5 2 []) idx) = Some 14.
+Proof. cbv. repeat split; reflexivity. Qed.
